@@ -17,7 +17,7 @@ PROPERTY = "C15"
 META = {
     "explanation": "symbolic execution of the real add/remove/assign methods against a reference association list; channels and indices are solver variables, so 'taken / not taken', 'max+1 overflows the on-disk width' and every index class are solver-decided branches",
     "bounds": {"quick": {"start_states": "empty, constructor-filled (calibration), decoded with 1-2 items", "sequence_length": "<= 2 (1 from the two-item decoded state; at most one bulk operation)", "index_window": "[-n-2, n+2]"},
-               "thorough": {"start_states": "same, decoded with up to 3 items", "sequence_length": "<= 2 over the full alphabet from every start state; 3 over the quick alphabet from empty / decoded-1 / constructor-1", "index_window": "[-n-2, n+2]"}},
+               "thorough": {"start_states": "same, decoded with up to 3 items", "sequence_length": "<= 2 over the full alphabet (quick alphabet from decoded-2, 1 from decoded-3); 3 over the quick alphabet from empty / decoded-1 / constructor-1", "index_window": "[-n-2, n+2]"}},
     "outside_bounds": ["longer sequences", "blocks with more than 5 items", "atomicity of bulk operations that fail midway (only alignment/uniqueness invariants are asserted there)"],
     "assumptions": ["items carry pairwise distinct labels (so equality-based removal is identity-based)"],
 }
@@ -384,6 +384,10 @@ def instances(tier):
                     # one-item decoded and the constructor-filled state
                     if st not in ("empty", "decoded1", "ctor1"):
                         continue
+                    alpha_n = alphabet(cls, "quick")
+                elif n == 2 and st == "decoded3":
+                    continue  # three decoded items: single operations only (ordering forks of max())
+                elif n == 2 and st == "decoded2":
                     alpha_n = alphabet(cls, "quick")
                 else:
                     alpha_n = alpha
